@@ -577,7 +577,9 @@ def r9_signed_arith(ctx, F):
             first.setdefault(k, (f, st))
     for k, cnt in sorted(seen.items()):
         f, st = first[k]
-        ent = SIGNED_ARITH_TABLE.get(k)
+        from kern import reviewed
+        ent = reviewed(F, SIGNED_ARITH_TABLE, k.rsplit(":", 2)[0], k.split(":", 1)[1] if False else ":".join(k.rsplit(":", 2)[1:]),
+                       extra_live=set(nat.values()))
         ctx.check(ent is not None and cnt <= ent[0], "C07.R9", "signed-arith:" + k,
                   "reviewed: " + (ent[1] if ent else ""),
                   "`%s` performs %d overflow-checked `%s` on %s whose operands are not provably small (%s reviewed): with "
@@ -628,6 +630,51 @@ def r10_module_slots(ctx, F):
                   "Module::%s writes a slot without allocating it first" % nm, fn=f)
 
 
+def r12_stack_top(ctx, F):
+    """CheapCallStack keeps its frames in a preallocated array and a `count`: the live frames are stack[..count]. No
+    accessor may take the top (or iterate the frames) through the whole array - `stack.last()` is the last *slot*,
+    a default or stale frame (call_stack_top_frame / the debugger's top frame then name the wrong function)."""
+    n = 0
+    for f in F.fns.values():
+        if f.crate != "starlark" or "cheap_call_stack::CheapCallStack" not in f.qpath:
+            continue
+        for c in f.calls:
+            if c.bb in f.cleanup or c.indirect or not re.search(r"slice::<impl \[T\]>::(last|last_mut|first|first_mut)$|"
+                                                                r"\[T\]>::(last|last_mut)$", c.name):
+                continue
+            # receiver derives from the whole `stack` field (not from a sub-slice taken with `count`)
+            seen, work, whole, sliced = set(), re.findall(r"_\d+", c.args[0]), False, False
+            while work:
+                l = work.pop()
+                if l in seen:
+                    continue
+                seen.add(l)
+                for st in f.stmts:
+                    if st.lhs_local == l:
+                        if "CheapCallStack::stack}" in st.text():
+                            whole = True
+                        work += re.findall(r"_\d+", st.text())
+                for d in f.calls:
+                    if d.dest_local == l:
+                        if re.search(r"ops::Index(Mut)?<.*>>::index(_mut)?$", d.name) and "Range" in d.full:
+                            sliced = True
+                        else:
+                            work += [x for a in d.args for x in re.findall(r"_\d+", a)]
+            if whole and not sliced:
+                n += 1
+                ctx.bad("C07.R12", "stack-top-through-whole-array:" + short_fn(f.qpath),
+                        "`%s` takes `%s()` of the whole preallocated frame array: the live frames end at `count`, so "
+                        "this is a default or stale frame, not the top of the call stack" % (
+                            short_fn(f.qpath), c.name.split("::")[-1]), fn=f, line=c.line)
+    acc = [f for f in F.fns.values() if f.crate == "starlark" and re.search(
+        r"cheap_call_stack::CheapCallStack::<'v>::(top_frame|top_location|top_nth_function_opt)$", f.qpath)]
+    uses_count = [f for f in acc if any("CheapCallStack::count}" in st.text() for st in f.stmts)]
+    ctx.check(len(acc) == 3 and len(uses_count) == 3, "C07.R12", "top-accessors-use-count",
+              "top_frame / top_location / top_nth_function_opt locate the top through `count`",
+              "a top-of-stack accessor of CheapCallStack does not read `count` (%s)"
+              % sorted(short_fn(f.qpath) for f in acc if f not in uses_count))
+
+
 def op_name(k):
     return {"Add": "+", "Sub": "-", "Mul": "*"}[k.rsplit(":", 2)[1]]
 
@@ -647,3 +694,4 @@ def run(ctx):
     r8b_slicing(ctx, F)
     r9_signed_arith(ctx, F)
     r10_module_slots(ctx, F)
+    r12_stack_top(ctx, F)
